@@ -537,3 +537,22 @@ PROPS['C12']['waivers'] = {'ticket-counters-near-wrap': 'ticket-layout-not-two-3
 PROPS['C08']['required_tags'] += ['drain-and-refill']
 PROPS['C08']['waivers'] = {t: 'hook-links-not-walkable' for t in ('remove-root', 'remove-first-child', 'remove-middle-sibling', 'remove-last-sibling', 'remove-only-child', 'remove-leaf', 'pop-odd-children', 'pop-even-children')}
 PROPS['C06']['waivers'] = {x: 'colour-not-readable' for x in RM_TAGS + INS_TAGS}
+
+# ---- rule texts brought in line with the oracles after the benign rounds (DESIGN.md 11.9)
+PROPS['C08']['rule'] = ('histories of push / pop / remove over priorities from a tiny range (ties), ascending, descending or random; while the hook still has the three plain '
+    'link fields and they form one tree below top(), remove picks its victim by position in that tree, so root, first child, middle sibling, last sibling, only child and '
+    'leaves are explicit choices (otherwise victims are picked from the reference and these classes are waived); removed elements are pushed again; in the middle of a '
+    'history everything is drained and pushed again; every case ends with a full drain; enumeration: all push sequences over {0,1,2} up to 6 (thorough 7) elements x every '
+    'single remove x drain. Oracle (behavioural - the link fields are never an oracle): after every operation empty() iff the reference is empty, top() is contained and '
+    'ordered before no contained element; pop removed exactly top(); every drain yields each contained element exactly once in an order the comparator allows and leaves '
+    'the heap empty; the hook of a removed element equals a freshly constructed one, can be pushed again, and passes the hook destructor\'s own assertion at the end. '
+    'Non-trivial: a remove of a non-root element that has children, or a pop with >= 3 children (without readable links: a remove of an element other than top() or a pop with >= 4 elements); '
+    'distinct = hash of the decoded history.')
+PROPS['C08']['level_note'] = 'the hook fields child/backlink/sibling steer the generator and the class histogram only; top() is never called on an empty heap'
+for _p in ('C01', 'C02', 'C03', 'C04'):
+    PROPS[_p]['rule_extension'] = (PROPS[_p].get('rule_extension', '') + ' Model conventions: a size class is the set of small blocks that report the same size, blocks per slab is '
+        'calibrated per reported size on a scratch pool (accepted if at least half of the slab holds objects); small vs. large is measured (a request is large when freeing its '
+        'block at once returns a region to the policy); a reservation is a region that held a large block; a region is charged with whatever the counter rose by when it was taken; '
+        'of a freed small block at most one aligned word may stay unpoisoned, wherever it is.').strip()
+PROPS['C12']['rule_extension'] = (PROPS['C12'].get('rule_extension') or '') + (' Spinlocks: std::atomic, the __atomic_* builtins, fences and pause are all interposed; ticket order is the order of the '
+    'lock() calls\' first successful read-modify-write; a deadlock is declared only after 4000 rounds in which every spinner ran again without any operation taking effect.')
